@@ -118,6 +118,7 @@ type Scenario struct {
 	NoTxLog   int           `json:"notx"` // 1: omit delivered acks; 2: omit every wire event that met no fault
 	Linger    int           `json:"linger"`
 	Gates     []*Gate       `json:"gates"`
+	User      string        `json:"user"` // user name (default verifuser); decides the padding strategy
 	Realtime  bool          `json:"realtime"` // run on the wall clock, outside a synctest bubble
 	Expect    string        `json:"expect"`  // "complete": every byte written must be read and the run must not stall  // virtual ms to keep muxes alive after programmes end
 }
@@ -372,7 +373,11 @@ func Run(sc *Scenario) (res *Result) {
 		res.Note = "bad server pattern: " + err.Error()
 		return
 	}
-	ws := &wireState{flows: map[string]*flow{}, sidIdx: map[uint32]int{}, hashed: refcodec.HashedPassword(User, Pass)}
+	user := User
+	if sc.User != "" {
+		user = sc.User
+	}
+	ws := &wireState{flows: map[string]*flow{}, sidIdx: map[uint32]int{}, hashed: refcodec.HashedPassword(user, Pass)}
 	udp := sc.Transport == "udp"
 	rec.add(Event{Ev: "Cfg", Ep: sc.Transport, S: len(sc.Sessions), Wlen: sc.MTU,
 		Pre: padMax(cEff, true), Suf: padMax(cEff, false), A: padMax(sEff, true), B: padMax(sEff, false),
@@ -535,7 +540,7 @@ func Run(sc *Scenario) (res *Result) {
 
 	// ---- server mux -------------------------------------------------------
 	smux := protocol.NewMux(false)
-	users := map[string]*appctlpb.User{User: {Name: proto.String(User), Password: proto.String(Pass)}}
+	users := map[string]*appctlpb.User{user: {Name: proto.String(user), Password: proto.String(Pass)}}
 	smux.SetServerUsers(users)
 	smux.SetTrafficPattern(sCfg)
 	if udp {
@@ -553,7 +558,7 @@ func Run(sc *Scenario) (res *Result) {
 	// ---- client mux -------------------------------------------------------
 	cmux := protocol.NewMux(true)
 	cmux.SetTrafficPattern(cCfg)
-	cmux.SetClientUserNamePassword(User, refcodec.HashedPassword(User, Pass))
+	cmux.SetClientUserNamePassword(user, refcodec.HashedPassword(user, Pass))
 	cmux.SetClientMultiplexFactor(sc.Multiplex)
 	cmux.SetResolver(nilResolver{})
 	if udp {
